@@ -107,8 +107,7 @@ def rt_ok(r, strict):
         return tag_ok(t) and data_ok(d) and is_ws(w1) and is_ws(w2) and is_ws(a)
     if k == "c":
         _, t, d, w, close, a = r
-        return (tag_ok(t) and data_ok(d) and cdata_ok(d) and is_ws(w) and is_ws(a)
-                and (not (strict and close) or w == ""))
+        return tag_ok(t) and data_ok(d) and cdata_ok(d) and is_ws(w) and is_ws(a)
     _, t, w0, kids, a = r
     if not (tag_ok(t) and is_ws(w0) and is_ws(a) and all(rt_ok(c, strict) for c in kids)):
         return False
@@ -119,12 +118,12 @@ def rt_ok(r, strict):
 
 def rt_guards(r, doc):
     """which guards of C02_complete_partial the rendering violates (ordered).  (G1, one `]]>` per line, was a guard
-    while the CDATA group was greedy; `cd_safe` remains only to label such documents in the statistics.)"""
+    while the CDATA group was greedy; `cd_safe` remains only to label such documents in the statistics.  G2, no white
+    space between `]]>` and the element's own end tag, was a guard until `fix: white space may follow a CDATA section`;
+    `rt_g2` remains only to label such renderings in the statistics.)"""
     out = []
 
     def walk(n):
-        if n[0] == "c" and n[4] and n[3] != "":
-            out.append("G2")
         if n[0] == "a":
             kids = n[3]
             if kids and kids[-1][0] in ("l", "c") and kids[-1][1] == n[1]:
@@ -133,6 +132,13 @@ def rt_guards(r, doc):
                 walk(c)
     walk(r)
     return out
+
+
+def rt_g2(r):
+    """the rendering puts white space between a CDATA section and the element's own end tag (former guard G2)"""
+    if r[0] == "c":
+        return bool(r[4]) and r[3] != ""
+    return r[0] == "a" and any(rt_g2(c) for c in r[3])
 
 
 def rt_nodes(r):
@@ -178,7 +184,7 @@ def random_rt(rng, t, wss, p_cdata=0.25, strict=True, p_close=0.5):
         _, tag, d = t
         if cdata_ok(d) and rng.random() < p_cdata:
             close = rng.random() < p_close
-            return ("c", tag, d, "" if strict else w(), close, w())
+            return ("c", tag, d, w(), close, w())
         return ("l", tag, d, w(), w(), rng.random() < p_close, w())
     return ("a", t[1], w(), [random_rt(rng, c, wss, p_cdata, strict, p_close) for c in t[2]], w())
 
@@ -198,7 +204,7 @@ def leaf_styles(d, wss, strict):
             out.append(("l", w1, w2, True))
     if cdata_ok(d):
         out.append(("c", "", False))
-        for w in ([""] if strict else wss):
+        for w in wss:
             out.append(("c", w, True))
     return out
 
@@ -234,7 +240,7 @@ def uniform_rt(t, style, w, idx=[0]):
             idx[0] += 1
             return ("l", tag, d, w, w, (idx[0] + close) % 2 == 0, w)
         if kind == "c" and cdata_ok(d):
-            return ("c", tag, d, "", close, w)
+            return ("c", tag, d, w, close, w)
         return ("l", tag, d, w, w, bool(close), w)
     return ("a", t[1], w, [uniform_rt(c, style, w, idx) for c in t[2]], w)
 
